@@ -11,7 +11,8 @@ value of the one-simcall path, so `exactly_one_last_per_group` speaks about both
 (`mc_last_flag_counterexample` is kept as a regression statement about the old return value).
 History-level theorems for the split path itself (BARRIER_ASYNC_LOCK and BARRIER_WAIT as separate events, any
 interleaving, repeated use): `split_barrier_groups`, `split_groups_eq_div`, `split_no_early_return`,
-`split_all_returned_when_quiescent`, `split_exactly_one_last_per_group`, `split_wait_enabled_iff_granted` at the end of
+`split_all_returned_when_quiescent`, `split_exactly_one_last_per_group`, `split_one_true_return_per_group`,
+`split_wait_enabled_iff_granted` at the end of
 the file, over the run of C07/Split.lean.
 -/
 import SgVerif.C07.Lemmas
@@ -248,6 +249,18 @@ theorem split_exactly_one_last_per_group (n : Nat) (h1 : 1 ≤ n) (h2 : n < 4294
   rw [← split_groups_eq_div n h1 h2 es s h]
   exact (sinv_run h1 h2 es (sinv_init n h1) h).flags
 
+/-- split path, exactly one `true` per complete group among the RETURNED values: the number of waits that returned
+`true` + the number of actors whose BARRIER_ASYNC_LOCK completed a group and that have not executed their BARRIER_WAIT
+yet (`pendT`: exactly the actors holding a granted, un-waited acquisition whose recorded flag is `true`, each once)
+= ⌊arrivals / n⌋; so never more `true` returns than complete groups, and exactly as many once those actors have waited -/
+theorem split_one_true_return_per_group (n : Nat) (h1 : 1 ≤ n) (h2 : n < 4294967296) (es : List BEv) (s : SSt)
+    (h : srun (SSt.init n) es = .ok s) :
+    (s.retF.map (·.2)).count true + s.pendT.length = s.arrF.length / n ∧
+    (∀ x, x ∈ s.pendT ↔ (s.phase x = 1 ∧ s.hgrant x = true ∧ s.hlast x = true)) ∧ s.pendT.Nodup := by
+  have ht := tinv_run h1 h2 es (sinv_init n h1) (tinv_init n) h
+  rw [← split_groups_eq_div n h1 h2 es s h]
+  exact ⟨ht.tcnt, ht.pT, ht.pnd⟩
+
 /-- split path: BARRIER_WAIT of an actor holding an un-waited acquisition completes at once iff that acquisition is
 granted, iff it is not in the queue (the enabledness test of the checker) -/
 theorem split_wait_enabled_iff_granted (n : Nat) (h1 : 1 ≤ n) (h2 : n < 4294967296) (es : List BEv) (s : SSt)
@@ -276,8 +289,8 @@ example : ((srun (SSt.init 2) [.async 0, .async 1, .wait 1, .wait 0, .async 2, .
 /-- … a state in the middle: the group of 0 and 1 is complete, nobody has waited yet: both hold a granted acquisition,
 nothing returned; 2 is in the open group -/
 example : ((srun (SSt.init 2) [.async 0, .async 1, .async 2]).toOption.map
-      (fun s => (s.retF, s.groups, [s.hgrant 0, s.hgrant 1, s.hgrant 2], s.b.queue.map (·.issuer)))) =
-    some ([], 1, [true, true, false], [2]) := by decide
+      (fun s => (s.retF, s.groups, [s.hgrant 0, s.hgrant 1, s.hgrant 2], s.b.queue.map (·.issuer) ++ s.pendT))) =
+    some ([], 1, [true, true, false], [2, 1]) := by decide
 
 /-- an actor inside the barrier cannot arrive again; a BARRIER_WAIT needs an acquisition -/
 example : (srun (SSt.init 3) [.async 0, .async 0]).toOption.isNone = true ∧
